@@ -543,7 +543,7 @@ def replay(rec):
     w = rec["witness"]
     lattice = LATTICES[w["latt"]] if w["latt"] in LATTICES else triclinic(int(w["latt"][3:]))
     mp = tuple(w["mp"])
-    nb = w["nb"]
+    nb = w.get("nb", 2)
     rng = np.random.RandomState(5)
     if "X" in w:
         X = unarr(w["X"]).astype(complex)
